@@ -2,3 +2,19 @@ register("C11", "exploration",
          "Round trip on generated inputs: for every generated force field / residue graph that gen_params accepts, the written .itp is compared (independent reader) with the molecule that was built, re-read with Topology.from_gmx_topfile and MetaMolecule.from_itp, and the recovered residue graph is compared with the requested one. Random search, so absence of violations holds for the explored cases only.",
          "independent .itp reader (pbt/itp.py); installed vermouth/networkx versions; generator bounds (<=8 residues, <=3 blocks, <=5 atoms)",
          "Hypothesis-generated inputs + round-trip / differential oracle", "DESIGN.md 4/C11")
+register("C01", "exploration",
+         "Generated force fields x residue graphs through gen_params, compared field by field with reference model R1 (atoms table in resid order, charge-group offset constant per block instance, interaction multiset = block instances + brute-force link matches + modifications). Flavours: no links, links, multi-residue (from_itp) blocks, terminal modifications. Random search: holds for the explored cases only.",
+         "reference model pbt/model.py and .itp reader pbt/itp.py are trusted; IOError/OSError = clean rejection; bounds <=8 residues, <=3(+2) blocks, <=5 atoms per block",
+         "Hypothesis-generated inputs + reference-model oracle", "DESIGN.md 4/C01")
+register("C02", "exploration",
+         "Generated link definitions x residue graphs; a brute-force matcher enumerates every injective assignment of link residue orders to residues and decides per the written link semantics (induced residue pattern, edge labels, relative order table, unique atom selection, non-edges, patterns, last-definition-wins, dangling .itp interactions as +n links); the written interactions, replaced attributes and inter-residue edges of the built molecule must equal the prediction in both directions.",
+         "pbt/model.py trusted; outcomes that depend on the application order of matches are counted and not asserted",
+         "Hypothesis-generated inputs + brute-force reference matcher", "DESIGN.md 4/C02")
+register("C10", "exploration",
+         "For every requested residue-graph edge the atom-level edges of the built molecule between the two residues are recounted independently and compared with the captured missing-link warnings (exactly one of the two must hold; warnings only for edges, with the right residue ids/names). gen_coords half: disconnected molecules must be refused.",
+         "captured log records are the warning channel; bounds as C02",
+         "Hypothesis-generated inputs + independent recount (invariant oracle)", "DESIGN.md 4/C10")
+register("C14", "exploration",
+         "From the written .itp alone: all atom pairs are classified effective (molecule nrexcl or listed exclusion) vs required (bond-graph distance within the larger block nrexcl of the two atoms, or explicit exclusion in a block/applied link) and must agree; uniform nrexcl must be kept without invented exclusions.",
+         "bond graph = bonds+constraints of the written file; explicit exclusions taken from the reference model; known finding F22 excluded by construction in 5/6 of the draws",
+         "Hypothesis-generated inputs + all-pairs reference predicate", "DESIGN.md 4/C14")
